@@ -3,3 +3,9 @@
 // A harness through `r#mod` itself runs into the ValueError->ExpressionError drop-glue explosion.
 #![allow(warnings)]
 use super::*;
+
+#[cfg(test)]
+mod playback {
+    use super::*;
+    include!("/verif/.cache/playback/std_mod.rs");
+}
